@@ -30,6 +30,7 @@ func init() {
 }
 
 func runC09(c *an.Ctx) {
+	r7SetvarParseErrors(c, "R5")
 	nondis := constVal(c, "R1", "experimental/plugins/plugintypes", "ActionTypeNondisruptive")
 	flow := constVal(c, "R1", "experimental/plugins/plugintypes", "ActionTypeFlow")
 	disr := constVal(c, "R1", "experimental/plugins/plugintypes", "ActionTypeDisruptive")
